@@ -1088,6 +1088,10 @@ pub fn run_l2(scn: &C10Scenario, stats: &mut RunStats) -> Vec<Violation> {
                 pending_renotify = renotify.clone();
             }
             Op::ConfigObject { .. } | Op::FailFastNext | Op::GeneratorOverride { .. } => {}
+            Op::ForeignDir { path } => {
+                // the output location is not watched: no event
+                fs.user_mkdir(path);
+            }
             Op::TamperOutput { output, body, source } if started => {
                 // the output location is not watched: no event for the tampering itself
                 match body.as_ref().and_then(|b| b.bytes()) {
